@@ -135,9 +135,22 @@ struct ReflScale { template<class I> long double operator()(const I& in,int i,in
 struct RefrScale { template<class I> long double operator()(const I& in,int i,int L) const { long double s=0; for(int k=0;k<L;k++) s+=fabsl((long double)in.a[k]*in.b[k]); long double eta=fabsl((long double)in.c[0]); return 4*(eta*fabsl((long double)in.a[i])+(eta*s+1+eta)*fabsl((long double)in.b[i]))*(1+eta*eta*(1+s*s)); } };
 #define GEOM(T,TN,FMT) \
 	VOP(geo_dot,T,TN,FMT,2,glm::dot(A_,B_),FORMULA,DotScale(),"dot-err/bound") VOP(geo_length,T,TN,FMT,1,glm::length(A_),FORMULA,LenScale(),"length-err/bound") VOP(geo_distance,T,TN,FMT,2,glm::distance(A_,B_),FORMULA,DistScale(),"distance-err/bound") \
-	VOP(geo_normalize,T,TN,FMT,1,glm::normalize(A_),FORMULA,One(),"normalize-err/bound") VOP(geo_reflect,T,TN,FMT,2,glm::reflect(A_,B_),FORMULA,ReflScale(),"reflect-err/bound") \
-	VOP(geo_faceforward,T,TN,FMT,3,glm::faceforward(A_,B_,C_),EXACT,NoScale(),nullptr)
+	VOP(geo_normalize,T,TN,FMT,1,glm::normalize(A_),FORMULA,One(),"normalize-err/bound") VOP(geo_reflect,T,TN,FMT,2,glm::reflect(A_,B_),FORMULA,ReflScale(),"reflect-err/bound")
+
 GEOM(float,f32,F12_f) GEOM(double,f64,F12_d)
+// faceforward: the sign decision on dot(Nref,I) must be the same in both builds unless the dot product is within the rounding error of
+// its largest term of zero (the two builds may sum the products in a different order); the returned vector is N or -N exactly
+template<class T> static void chk_faceforward(const InV<T>& in,vf::Ctx& c){
+	auto one=[&](auto Lc){ constexpr int L=decltype(Lc)::value;
+		auto A=glm::faceforward(mk<T,L,AQ>(in.a,in.mode,in.poison),mk<T,L,AQ>(in.b,in.mode>>1,in.poison),mk<T,L,AQ>(in.c,in.mode>>2,in.poison)); auto P=glm::faceforward(mk<T,L,PQ>(in.a,0,in.poison),mk<T,L,PQ>(in.b,0,in.poison),mk<T,L,PQ>(in.c,0,in.poison));
+		long double d=0,S=0; for(int k=0;k<L;k++){ d+=(long double)in.c[k]*in.b[k]; S+=fabsl((long double)in.c[k]*in.b[k]); }
+		bool same_all=true; for(int i=0;i<L;i++) if(!agree(A[i],P[i],EXACT,0,c,nullptr)) same_all=false;
+		if(d==0 && S==0) c.cls("dot==0-exactly(all-products-zero)"); else if(fabsl(d)<=8*uu<T>()*S+2*ulp((T)0)){ c.cls("dot~0:sign-within-rounding-of-largest-term:either-branch-accepted"); bool neg=true,pos=true; for(int i=0;i<L;i++){ if(!agree(A[i],(T)(-P[i]),EXACT,0,c,nullptr)) neg=false; } (void)pos; if(!same_all && !neg) c.fail(tag(L,"faceforward:dot~0:result-is-neither-N-nor-minus-N"),A[0],P[0]); return; } else c.cls(d<0?"dot<0":"dot>0");
+		if(!same_all) for(int i=0;i<L;i++) if(!agree(A[i],P[i],EXACT,0,c,nullptr)){ c.fail(tag(L,"faceforward:branch-differs-from-pure"),vf::show(A[i])+" (component "+std::to_string(i)+", aligned)",vf::show(P[i])+" (pure)"); break; } };
+	one(std::integral_constant<int,1>()); one(std::integral_constant<int,2>()); one(std::integral_constant<int,3>()); one(std::integral_constant<int,4>());
+}
+VF_OP(geo_faceforward_f32, InV<float>, F12_f){ chk_faceforward<float>(in,c); }
+VF_OP(geo_faceforward_f64, InV<double>, F12_d){ chk_faceforward<double>(in,c); }
 // refract: zero-ness (total internal reflection) must agree unless k is within rounding of 0; values FORMULA
 template<class T> static void chk_refract(const InV<T>& in,vf::Ctx& c){
 	auto one=[&](auto Lc){ constexpr int L=decltype(Lc)::value; T eta=in.c[0];
@@ -263,7 +276,7 @@ template<class T> static void reg_float(vf::Op** o){ // order = COMMON then GEOM
 	auto mod=[](InV<T>& x){ fin(x.a,4,1e6); fin(x.b,4,1e6); for(int i=0;i<4;i++) if(std::fabs((double)x.b[i])<1e-3) x.b[i]=(T)(1.5+i);
 		/* lowp division is a hardware reciprocal: quotients within 2^-9 of an integer may legitimately fall on either side of floor's discontinuity, not judged */ if(LOWP) for(int i=0;i<4;i++){ long double q=(long double)x.a[i]/(long double)x.b[i]; if(fabsl(q-roundl(q))<=fabsl(q)*std::ldexp(1.0L,-9)+1e-6L){ x.a[i]=(T)((roundl(q)+0.37L)*(long double)x.b[i]); } } };
 	auto bounded=[](InV<T>& x){ fin(x.a,4,1e15); fin(x.b,4,1e15); fin(x.c,4,1e15); };
-	auto edges=[](InV<T>& x){ fin(x.a,4,1e15); fin(x.b,4,1e15); fin(x.c,4,1e15); for(int i=0;i<4;i++){ if(x.b[i]<x.a[i]) std::swap(x.a[i],x.b[i]); if(!(x.a[i]<x.b[i])){ x.a[i]=0; x.b[i]=1; } } };
+	auto edges=[](InV<T>& x){ fin(x.a,4,1e15); fin(x.b,4,1e15); fin(x.c,4,1e15); for(int i=0;i<4;i++){ if(x.b[i]<x.a[i]) std::swap(x.a[i],x.b[i]); if(!(x.a[i]<x.b[i])){ x.a[i]=0; x.b[i]=1; } /* lowp divides through a hardware reciprocal, which flushes subnormal divisors */ if(LOWP && !((double)x.b[i]-(double)x.a[i]>=1e-30)){ x.a[i]=(T)-0.5; x.b[i]=(T)1.5; } } };
 	auto pos=[](InV<T>& x){ for(int i=0;i<4;i++){ T v=(T)std::fabs((double)x.a[i]); if(!(v>=(T)1e-30&&v<=(T)1e30)) v=(T)(1.5+i); x.a[i]=v; } };
 	auto geo=[](InV<T>& x){ fin(x.a,4,1e15); fin(x.b,4,1e15); fin(x.c,4,1e15); for(int i=0;i<4;i++){ if(x.a[i]!=0&&std::fabs((double)x.a[i])<1e-15) x.a[i]=(T)0.5; if(x.b[i]!=0&&std::fabs((double)x.b[i])<1e-15) x.b[i]=(T)-0.5; } };
 	auto nz=[](InV<T>& x){ fin(x.a,4,1e15); bool z=true; for(int i=0;i<4;i++){ if(x.a[i]!=0&&std::fabs((double)x.a[i])<1e-15) x.a[i]=(T)0.5; if(x.a[i]!=0) z=false; } if(z||x.a[0]==0) x.a[0]=(T)1.25; };
